@@ -166,14 +166,12 @@ func (d *vfDisk) guard(what string, f func()) bool {
 		defer close(done)
 		f()
 	}()
-	select {
-	case <-done:
+	if vfutil.Wait(done, 5*time.Second) {
 		return true
-	case <-time.After(5 * time.Second):
-		d.dead = true
-		d.stalls++
-		return false
 	}
+	d.dead = true
+	d.stalls++
+	return false
 }
 
 func (d *vfDisk) right() int64 { return d.hbase + int64(len(d.hist)) }
@@ -545,8 +543,25 @@ func (d *vfDisk) opOpen(off int64, crc bool) {
 			// checksum verification refuses a snapshot without a correct footer
 			d.s.Count("open_rdb_crc_refused")
 		} else if valid {
+			// both observations are taken back to back, no operation of the harness in
+			// between. If the case's directory itself is gone (another process cleaning
+			// /tmp), that is the machine, not the store.
+			if _, serr := os.Stat(d.st.dir); serr != nil {
+				vfutil.Infra(fmt.Sprintf("the case directory %s vanished under the running harness: %v", d.st.dir, serr))
+				d.dead = true
+				return
+			}
+			var names []string
+			if ents, rerr := os.ReadDir(d.st.dir); rerr == nil {
+				for _, e := range ents {
+					names = append(names, e.Name())
+				}
+			}
+			l, r := d.st.GetOffsetRange()
+			rl, rs := d.st.GetRdb()
 			d.s.Violate("valid-not-readable", fmt.Sprintf("IsValidOffset(%d)=true but GetReader(%d,crc=%v) failed: %v", off, off, crc, err),
-				d.replay(map[string]interface{}{"offset": off, "crc": crc}))
+				d.replay(map[string]interface{}{"offset": off, "crc": crc, "dir": fmt.Sprint(names),
+					"after": fmt.Sprintf("valid=%v range=[%d,%d] rdb=(%d,%d) refs=%v", d.st.IsValidOffset(off), l, r, rl, rs, d.st.VerifRefs())}))
 		}
 		return
 	}
@@ -624,11 +639,11 @@ func (d *vfDisk) opReadX(rid int, n int, gcInWindow bool) {
 			got, err = vr.rd.rdb.read(buf)
 		}
 	}()
-	// a read the oracle says can make progress needs at most a few 10 ms polls
-	limit := 1500 * time.Millisecond
-	select {
-	case <-done:
-	case <-time.After(limit):
+	// a read the oracle says can make progress needs at most a few 10 ms polls of
+	// the reader. The budget is NOT wall-clock time: it is 2 x 150 polls of a
+	// reference goroutine with the same sleep/wake pattern (vfutil.Wait), so a loaded
+	// machine slows the budget like it slows the reader
+	if !vfutil.Wait(done, 1500*time.Millisecond) {
 		// release the stuck goroutine: closing the reader ends its polling loop
 		if vr.isAof {
 			vr.rd.aof.Close()
@@ -1067,12 +1082,10 @@ func vfRotationWindow(s *vfutil.Session, r *vfutil.Rand, dir string, verify bool
 				}
 			}
 		}()
-		select {
-		case <-done:
+		if vfutil.Wait(done, budget) {
 			return rerr == nil
-		case <-time.After(budget):
-			return false
 		}
+		return false
 	}
 	if !readTo(right, 3*time.Second) {
 		return
@@ -1096,9 +1109,7 @@ func vfRotationWindow(s *vfutil.Session, r *vfutil.Rand, dir string, verify bool
 		return
 	}
 	write(10 + r.Intn(20)) // the poll in flight returns these bytes
-	select {
-	case <-polled:
-	case <-time.After(3 * time.Second):
+	if !vfutil.Wait(polled, 3*time.Second) {
 		s.Violate("reader-stalls-behind-writer", fmt.Sprintf("rotation window (verify=%v): the reader polling at %d during the rotation does not deliver the bytes appended after it (writer at %d)", verify, pos(), right), replay)
 		return
 	}
@@ -1127,11 +1138,9 @@ func vfRotationWindow(s *vfutil.Session, r *vfutil.Rand, dir string, verify bool
 }
 
 func vfWatchdog(s *vfutil.Session, limit time.Duration, cur func() string) *time.Timer {
+	// a harness that does not finish is an infrastructure failure (broken tie), not a violation
 	return time.AfterFunc(limit, func() {
-		s.Violate("harness-watchdog", fmt.Sprintf("the harness did not finish within %v; last op: %s", limit, cur()),
-			map[string]interface{}{"last_ops": cur()})
-		s.Close()
-		os.Exit(3)
+		vfutil.WatchdogExit(s, fmt.Sprintf("the harness did not finish within %v; last op: %s", limit, cur()))
 	})
 }
 
@@ -1179,6 +1188,9 @@ func TestVerifC05(t *testing.T) {
 	}
 	for i := 0; i < vfutil.Scale(6, 40); i++ {
 		vfRotationWindow(s, d.r, t.TempDir(), i%2 == 1)
+	}
+	for _, m := range vfutil.InfraFailures() {
+		t.Errorf("C05 harness infrastructure (no statement about the cache): %s", m)
 	}
 	_ = filepath.Join
 }
